@@ -345,7 +345,7 @@ def run_build(args, cwd, timeout, ctl=None):
     t0 = time.time()
     while True:
         try:
-            so, se = p.communicate(timeout=1.0)
+            so, se = p.communicate(timeout=min(1.0, max(0.05, timeout)))
             return p.returncode, so, se
         except subprocess.TimeoutExpired:
             late = time.time() - t0 > timeout
@@ -388,7 +388,7 @@ def run_project(pr, timeout=None, final=False, ctl=None, only_build=None):
                     ctl.note_timeout()
                 if not final:
                     return dict(retry=True, build=bi)
-                se = 'no result within %d s' % timeout
+                se = 'no result within %g s' % timeout
             elif only_build is not None:
                 return dict(finished=True)
             data = open(art).read() if os.path.exists(art) else None
@@ -408,7 +408,7 @@ def run_project(pr, timeout=None, final=False, ctl=None, only_build=None):
             exp = 'exit status > 0, a diagnostic that mentions an import cycle, no crash, no endless recursion'
             for o in obs:
                 if o['rc'] == 'timeout':
-                    return bad(o, exp, 'no result within %d s (%s)' % (timeout, 'also when run alone' if only_build is not None else 'second run of the stand-in, 4 builds at a time'))
+                    return bad(o, exp, 'no result within %g s (%s)' % (timeout, 'also when run alone' if only_build is not None else 'second run of the stand-in, 4 builds at a time'))
                 if o['rc'] in (134, 139) or o['rc'] < 0:
                     return bad(o, exp, 'the process crashed (status %s) instead of reporting the cycle' % o['rc'])
                 if o['rc'] == 0:
@@ -420,7 +420,7 @@ def run_project(pr, timeout=None, final=False, ctl=None, only_build=None):
             return None
         for o in obs:
             if o['rc'] == 'timeout':        # the statement gives no time bound for an acyclic build: a harness problem, not a violation
-                return dict(error='%s: `ucg build %s` from the %s gave no result within %d s (%s)' % (pr['name'], o['arg'], o['label'], timeout,
+                return dict(error='%s: `ucg build %s` from the %s gave no result within %g s (%s)' % (pr['name'], o['arg'], o['label'], timeout,
                                                                                                     'although it ran alone' if only_build is not None else 'second run of the stand-in, 4 builds at a time'))
             if 'DECOY' in o['out'] or 'DECOY' in (o['art'] or '') or str(DECOY_V) in (o['art'] or ''):
                 return bad(o, 'only files relative to the importing file are read', 'a DECOY file (resolved against another directory) was read')
